@@ -90,7 +90,7 @@ LoseStepThm(x, y, lm) ==
   /\ <<y.pp, y.ppo, y.pg, y.pgo, y.pt, y.pto>> = <<x.pp, x.ppo, x.pg, x.pgo, x.pt, x.pto>>      \* a lost frame leaves the filter alone
   /\ ~NoiseBased(x) => /\ DO!CeltNeed(Ref(x)) = 0 /\ x.ld < NoiseAt /\ x.start = 0        \* pitch PLC: two decoded frames, early, not hybrid
                        /\ y.fold = 1 /\ ~LoseFoldRun(x)                                     \* arms (or re-arms) the fold, never runs it
-                       /\ FadeQ15(x) = (IF x.ld = 0 THEN 32767 ELSE 26214) /\ y.rng = x.rng
+                       /\ FadeQ15(x) = (IF x.ld = 0 THEN 32767 ELSE 26214)
                        /\ (x.ld > 0 => y.lpi = x.lpi)
   /\ NoiseBased(x) => /\ y.fold = 0 /\ y.skip = 1 /\ (LoseFoldRun(x) <=> x.fold = 1)
                       /\ DecayHalf(x) = (IF x.ld = 0 THEN 3 ELSE 1) /\ y.lpi = x.lpi
@@ -104,14 +104,15 @@ RECURSIVE LosePieces(_, _, _, _)
 \* conceal `rem` units: fold LoseFrame over the pieces (asserting the step theorem on each); returns [d, run]
 LosePieces(x, r, rem, fz) ==
   IF rem <= 0 THEN [d |-> x, run |-> r]
-  ELSE LET a == PlcPiece(rem, fz) lm == LmOfUnits(a) x1 == LoseFrame(x, lm, PlcLagMin) IN
+  ELSE LET a == PlcPiece(rem, fz) lm == LmOfUnits(a) x1 == LoseFrameR(x, lm, PlcLagMin, x.rng) IN
        IF Assert(LoseStepThm(x, x1, lm), <<"LoseStepThm", x, lm>>) THEN LosePieces(x1, LoseStep(x, r, lm), rem - a, fz) ELSE [d |-> x, run |-> r]
 
 Push(op) == hist' = IF GenLen > 0 THEN Append(hist, op) ELSE hist
 
 \* a frame is encoded and delivered
 Good(lm, vm, o) ==
-  LET cfg == Cfg(vm) h == EncHdr(e, o) x == Prep(d) y == DecodeFrame(x, lm, h, o.rng, 0) e1 == EncodeFrame(e, lm, o, cfg) IN
+  LET cfg == Cfg(vm) h == EncHdr(e, o) x == Prep(d) IN
+  \E y \in {DecodeFrame(x, lm, h, o.rng, 0)}, e1 \in {EncodeFrame(e, lm, o, cfg)} :
   /\ OraOK(lm, o, cfg) /\ Assert(HdrOK(h, lm, cfg.start), <<"HdrOK", h>>)
   /\ Assert(DecStepThm(x, y, e1, lm, h), <<"DecStepThm", x, lm, h>>)
   /\ e' = e1 /\ d' = y
@@ -125,7 +126,8 @@ Good(lm, vm, o) ==
 
 \* a frame is encoded and lost: the decoder conceals its duration
 Lost(lm, vm, o) ==
-  LET cfg == Cfg(vm) x == Prep(d) y == LoseFrame(x, lm, PlcLagMin) IN
+  LET cfg == Cfg(vm) x == Prep(d) IN
+  \E y \in {LoseFrameR(x, lm, PlcLagMin, x.rng)} :          \* (the seed is abstracted here: LcgN is checked by the ASSUMEs below and on the traces)
   /\ OraOK(lm, o, cfg)
   /\ Assert(LoseStepThm(x, y, lm), <<"LoseStepThm", x, lm>>)
   /\ e' = EncodeFrame(e, lm, o, cfg)
